@@ -429,6 +429,12 @@ class Outcome:
         cov["known_findings_seen"] = [k["what"] for k, _ in seen_known.values()]
         cov["mismatches"] = len(self.mismatches)
         write_evidence(pid, cov, time.time() - self.t0, nviol, extra_assumptions)
+        if rc == 0:  # a pass leaves no replay of an earlier run behind
+            for tag in ("violation", "unproved"):
+                try:
+                    os.remove(os.path.join(REPLAYS, "%s_%s.json" % (pid, tag)))
+                except OSError:
+                    pass
         for l in lines:
             print(l)
         sys.stdout.flush()
